@@ -175,7 +175,7 @@ impl Recorder {
             "upanics": truth.unexpected.len(), "mfaults": truth.metric_faults.len(),
             "newcalls": newcalls, "orphancalls": orphan_calls, "bgcalls": 0,
             // event-specific facts (neutral defaults)
-            "chain": [], "late": false, "cause": "none", "mode": "-",
+            "chain": [], "late": false, "cause": "none", "mode": "-", "rto": "none",
             "rrc": 0, "rho": 0, "rrec": false, "rrejected": false,
             "callk": "-", "callobj": 0, "callrc": 0, "callho": 0, "refqlen": -1, "expectpop": 0,
             "retained": 0, "removed": [], "keep": [], "idlebefore": [], "predcalls": [], "nrej": 0,
@@ -285,6 +285,7 @@ impl Recorder {
         e["op"] = json!(self.op[t]);
         e["arg"] = json!(self.arg[t]);
         e["mode"] = json!(self.mode[t]);
+        e["rto"] = json!(self.rto[t]);
         e["pendwait"] = json!(matches!(w.ts[t], TState::Pending { gate: None }));
         // injected failures
         let failed_call = |b: &TState| -> Option<(CallKind, u32)> {
@@ -376,8 +377,16 @@ impl Recorder {
             let first_of_chain = self.chain[t].is_empty() && matches!(st.a.as_str(), "GPop" | "GWaitPoll" | "GAcq" | "UDrop" | "Call" | "Resume");
             if *kind == CallKind::Create {
                 e["refqlen"] = json!(self.refq.len());
-            } else if *obj > 0 && first_of_chain && self.refq.contains(obj) {
-                let expect = if w.cfg.lifo { *self.refq.last().unwrap() } else { self.refq[0] };
+            } else if *obj > 0 && first_of_chain {
+                // (-1: the reference queue is empty - whatever was popped is an object that should not be idle,
+                //  e.g. one that was given up earlier and must have been discarded)
+                let expect: i64 = if self.refq.is_empty() {
+                    -1
+                } else if w.cfg.lifo {
+                    *self.refq.last().unwrap() as i64
+                } else {
+                    self.refq[0] as i64
+                };
                 e["expectpop"] = json!(expect);
                 self.refq.retain(|x| x != obj);
             }
